@@ -206,7 +206,7 @@ package masswallet
 //@   closure#1 closure#1 nopanic off
 //@   closure#1 closure#1 requires item != nil && w != nil && w.server != nil
 //@   closure#1 closure#1 modifies *
-//@   closure#1 closure#1 at "selector.submit(item)" assert[C02,C09] item.Confirmations >= item.Maturity && !item.Flags.SpentByUnmined && !item.Flags.Spent && item.Flags.Class != txmgr.ClassBindingUtxo && item.Flags.Class != txmgr.ClassStakingUtxo
+//@   closure#1 closure#1 at "selector.submit(item)" assert[C02,C09,C17] item.Confirmations >= item.Maturity && !item.Flags.SpentByUnmined && !item.Flags.Spent && item.Flags.Class != txmgr.ClassBindingUtxo && item.Flags.Class != txmgr.ClassStakingUtxo
 
 // ---- C01: a block is filtered only if it is the block the chain database holds at that height (stale tips answered
 // with ErrMaybeChainRevoked)
@@ -289,6 +289,9 @@ package masswallet
 //@   modifies *
 //@   ensures[C02] err == nil ==> ghosts("txSender", msgTx) == fromAddr && ghosts("txChange", msgTx) == changeAddr
 //@   loop#1 invariant txWF(msgTx) && fresh(msgTx) && wmWF(w)
+// "the relay minimum for the signed size": the payload is already part of the transaction when inputs, change and fee
+// are computed for it (the size estimate counts len(msgTx.Payload))
+//@   at "u, err := w.autoConstructTxInAndChangeTxOut(msgTx, lockTime, addrs, userTxFee, changeAddr)" assert[C02] len(msgTx.Payload) == len(payload) && bytesEq(msgTx.Payload, 0, payload, 0, len(payload))
 //@ func (*WalletManager).EstimateStakingTxFee
 //@   props C02
 //@   nopanic off
